@@ -285,6 +285,8 @@ def check(ctx):
         # locals that merely name a wire expression (`aux = work_wires[0]`, `control, target = wires[0], wires[1]`) are read through
         from ..astutil import inline_single_defs, read_through
 
+        f = funcs[(rel, name)][0]  # the measuring function of this flow
+
         wire_defs = {k_: v_ for k_, v_ in inline_single_defs(f.node).items() if isinstance(v_, (ast.Subscript, ast.Name, ast.Attribute))}
         for st_ in ast.walk(f.node):
             if isinstance(st_, ast.Assign) and len(st_.targets) == 1 and isinstance(st_.targets[0], ast.Tuple) and isinstance(st_.value, ast.Tuple) \
@@ -306,10 +308,17 @@ def check(ctx):
                     guarded |= keys_of(kw.value)
         # outcomes handed to another function of the package (an extracted corrections helper): the conditioned operators may be there
         outcome_names = {d["name"] for d in fl.defs if d["name"]}
+        def _package_function(fn_expr):
+            if not isinstance(fn_expr, (ast.Name, ast.Attribute)):
+                return None
+            try:
+                r_ = ix.resolve_expr(f.module, fn_expr)
+            except RecursionError:
+                return None
+            return r_ if isinstance(r_, FuncInfo) and r_.name != "cond" else None
         escapes = any(isinstance(c_, ast.Call) and not (isinstance(c_.func, ast.Attribute) and c_.func.attr == "cond") and any(
             isinstance(x_, ast.Name) and x_.id in outcome_names for a_ in list(c_.args) + [k_.value for k_ in c_.keywords] for x_ in ast.walk(a_))
-            and _resolve_callee(sc, f.module, c_.func) is not None and getattr(_resolve_callee(sc, f.module, c_.func), "name", "") not in ("cond",)
-            for c_ in ast.walk(f.node))
+            and _package_function(c_.func) is not None for c_ in ast.walk(f.node))
         measured = {}
         for d in fl.defs:
             w = _measure_wires(d["call"], d["kind"])
